@@ -3,6 +3,8 @@
 
 package runtime
 
+import "github.com/arnodel/golua/runtime/internal/luagc"
+
 // Verification hooks, only compiled with the verif build tag.  A simulator can
 // take control of the scheduling of coroutine goroutines by setting
 // VerifSchedHook: it is called before every blocking operation and after every
@@ -44,4 +46,21 @@ func verifSched(ev int, target *Thread) {
 	if h := VerifSchedHook; h != nil {
 		h(ev, target)
 	}
+}
+
+// VerifClockHook, if not nil, replaces the wall clock (unix time in ms) used
+// for time limits.
+var VerifClockHook func() uint64
+
+func verifClock() (uint64, bool) {
+	if h := VerifClockHook; h != nil {
+		return h(), true
+	}
+	return 0, false
+}
+
+// VerifSetFinalizerFunc replaces the function used by the finalizer pools to
+// register Go finalizers (runtime.SetFinalizer by default).
+func VerifSetFinalizerFunc(f func(obj interface{}, finalizer interface{})) {
+	luagc.VerifSetFinalizerFunc(f)
 }
